@@ -1,7 +1,7 @@
 CONSTANTS
   LieHeights = {2, 5}
   WithCoherent = TRUE
-  CaseKinds = {"ABCIQuery"}
+  CaseKinds = {"Commit"}
   Weak_NoTrustedHashCompare = FALSE
   Weak_NoBlockIDCompare = FALSE
   Weak_NoLastCommitBinding = FALSE
@@ -10,12 +10,12 @@ CONSTANTS
   Weak_ResultsPreimage = FALSE
   Weak_ResultsHeightUnbound = FALSE
   Weak_NoResultsHashCompare = FALSE
-  Weak_NoQueryProofCheck = TRUE
+  Weak_NoQueryProofCheck = FALSE
   Weak_AbsenceRawKey = FALSE
   Weak_NoParamsHashCompare = FALSE
   Weak_ValsNotHashed = FALSE
   Weak_BackwardsTargetNotRechecked = FALSE
-  Weak_BackwardsCommitUnverified = FALSE
+  Weak_BackwardsCommitUnverified = TRUE
   CommitBlockIDValidated = FALSE
   Weak_SearchProofFromCachedBlock = FALSE
 INIT CaseInit
